@@ -22,6 +22,9 @@ import (
 // VerifSetYield installs the simulator's scheduling callback.
 func VerifSetYield(f func(site string)) { verifhook.SetYield(f) }
 
+// VerifEvent is the value some Note sites pass (source object + value).
+type VerifEvent = verifhook.Event
+
 // VerifSetNote installs the simulator's observer callback.
 func VerifSetNote(f func(site string, v any)) { verifhook.SetNote(f) }
 
